@@ -56,3 +56,18 @@ Proof.
 Qed.
 
 End LinearHalf.
+
+(* ---------------------------------------------------------------- second tie: translated code
+   GenLeaf.v is REGENERATED from /repo's Go source on every run (tools/go2coq, explicit Go integer
+   semantics GoSem.v); the theorems below say that the generated definitions equal the model's
+   functions on the stated ranges, so an edit of these Go functions breaks an obligation of this file. *)
+From Arsenal Require GoSem GenLeaf GenLeafProofs.
+
+Theorem C01_code_AlignUp : forall v a, 0 <= a < 2 ^ 63 -> -2 ^ 63 < v + a <= 2 ^ 63 ->
+  GenLeaf.AlignUp v a = Util.align_up v a.
+Proof. exact GenLeafProofs.gen_AlignUp_eq. Qed.
+Print Assumptions C01_code_AlignUp.
+
+Theorem C01_code_AlignDown : forall v a, 0 <= a <= 2 ^ 63 -> GenLeaf.AlignDown v a = Util.align_down v a.
+Proof. exact GenLeafProofs.gen_AlignDown_eq. Qed.
+Print Assumptions C01_code_AlignDown.
